@@ -190,6 +190,7 @@ OUTER:
 			s.persistedCallbacks = nil
 			atomic.StoreUint64(&s.iStats.persistSnapshotSize, uint64(ourSnapshot.Size()))
 			atomic.StoreUint64(&s.iStats.persistEpoch, ourSnapshot.epoch)
+			verifHook("persist.take", s, ourSnapshot, len(ourPersisted), len(ourPersistedCallbacks))
 		}
 		s.rootLock.Unlock()
 
@@ -197,6 +198,7 @@ OUTER:
 			startTime := time.Now()
 
 			err := s.persistSnapshot(ourSnapshot, s.persisterOptions)
+			verifHook("persist.done", s, ourSnapshot, err)
 			for _, ch := range ourPersisted {
 				if err != nil {
 					ch <- err
@@ -237,6 +239,7 @@ OUTER:
 				ourPersistedCallbacks[i](err)
 			}
 
+			verifHook("persist.acked", s, ourSnapshot, len(ourPersisted), len(ourPersistedCallbacks))
 			atomic.StoreUint64(&s.stats.LastPersistedEpoch, ourSnapshot.epoch)
 
 			lastPersistedEpoch = ourSnapshot.epoch
@@ -563,6 +566,7 @@ func (s *Scorch) persistSnapshotMaybeMerge(snapshot *IndexSnapshot, po *persiste
 	}
 
 	// finally, persist the equivalent snapshot to disk
+	verifHook("memmerge.equiv", s, snapshot, equiv)
 	err = s.persistSnapshotDirect(equiv)
 	if err != nil {
 		return false, err
@@ -719,6 +723,7 @@ func prepareBoltSnapshot(snapshot *IndexSnapshot, tx *util.BoltTxImpl, path stri
 		switch seg := segmentSnapshot.segment.(type) {
 		case segment.PersistedSegment:
 			segPath := seg.Path()
+			verifHook("copy.file", snapshot.parent, segPath, d != nil)
 			_, err = copyToDirectory(segPath, d)
 			if err != nil {
 				return nil, nil, fmt.Errorf("segment: %s copy err: %v", segPath, err)
@@ -733,6 +738,7 @@ func prepareBoltSnapshot(snapshot *IndexSnapshot, tx *util.BoltTxImpl, path stri
 			// need to persist this to disk
 			filename := zapFileName(segmentSnapshot.id)
 			path := filepath.Join(path, filename)
+			verifHook("persist.file", snapshot.parent, path, d != nil)
 			err := persistToDirectory(seg, d, path)
 			if err != nil {
 				return nil, nil, fmt.Errorf("segment: %s persist err: %v", path, err)
@@ -802,10 +808,12 @@ func (s *Scorch) persistSnapshotDirect(snapshot *IndexSnapshot) (err error) {
 		}
 	}()
 
+	verifHook("persist.begin", s, snapshot)
 	filenames, newSegmentPaths, err := prepareBoltSnapshot(snapshot, tx, s.path, s.segPlugin, nil)
 	if err != nil {
 		return err
 	}
+	verifHook("persist.filesWritten", s, snapshot, filenames)
 
 	// we need to swap in a new root only when we've persisted 1 or
 	// more segments -- whereby the new root would have 1-for-1
@@ -838,6 +846,7 @@ func (s *Scorch) persistSnapshotDirect(snapshot *IndexSnapshot) (err error) {
 			applied:   make(notificationChan),
 		}
 
+		verifHook("persist.beforeIntro", s, snapshot)
 		select {
 		case <-s.closeCh:
 			return segment.ErrClosed
@@ -846,17 +855,21 @@ func (s *Scorch) persistSnapshotDirect(snapshot *IndexSnapshot) (err error) {
 
 		// blockingly wait until the persist has been applied
 		<-persist.applied
+		verifHook("persist.introduced", s, snapshot)
 	}
 
+	verifHook("persist.beforeCommit", s, snapshot, filenames)
 	err = tx.Commit()
 	if err != nil {
 		return err
 	}
 
+	verifHook("persist.committed", s, snapshot, filenames)
 	err = s.rootBolt.Sync()
 	if err != nil {
 		return err
 	}
+	verifHook("persist.synced", s, snapshot, filenames)
 
 	// allow files to become eligible for removal after commit, such
 	// as file segments from snapshots that came from the merger
@@ -865,6 +878,7 @@ func (s *Scorch) persistSnapshotDirect(snapshot *IndexSnapshot) (err error) {
 		delete(s.ineligibleForRemoval, filename)
 	}
 	s.rootLock.Unlock()
+	verifHook("persist.unmarked", s, snapshot, filenames)
 
 	return nil
 }
@@ -912,6 +926,7 @@ func (s *Scorch) loadFromBolt() error {
 			}
 			s.nextSegmentID++
 			s.rootLock.Lock()
+			verifHook("recovered", s, indexSnapshot)
 			s.nextSnapshotEpoch = snapshotEpoch + 1
 			rootPrev := s.root
 			s.root = indexSnapshot
@@ -1276,7 +1291,9 @@ func (s *Scorch) removeBoltFileWriterIDs(ids map[string]struct{}) error {
 }
 
 func (s *Scorch) removeOldData() {
+	verifHook("purge.begin", s)
 	removed, err := s.removeOldBoltSnapshots()
+	verifHook("purge.bolt.done", s, removed, err)
 	if err != nil {
 		s.fireAsyncError(NewScorchError(
 			persister,
@@ -1294,6 +1311,7 @@ func (s *Scorch) removeOldData() {
 			ErrCleanup,
 		))
 	}
+	verifHook("purge.end", s)
 }
 
 func getTimeSeriesSnapshots(maxDataPoints int, interval time.Duration,
@@ -1407,6 +1425,7 @@ func (s *Scorch) removeOldBoltSnapshots() (numRemoved int, err error) {
 	s.eligibleForRemoval = newEligible
 	s.rootLock.Unlock()
 	s.checkPoints = newCheckPoints(protectedSnapshots)
+	verifHook("purge.bolt.plan", s, epochsToRemove)
 
 	if len(epochsToRemove) == 0 {
 		return 0, nil
@@ -1487,7 +1506,9 @@ func (s *Scorch) removeOldZapFiles() error {
 		fname := f.Name()
 		if filepath.Ext(fname) == ".zap" {
 			if _, exists := liveFileNames[fname]; !exists && !s.ineligibleForRemoval[fname] && (s.copyScheduled[fname] <= 0) {
+				verifHook("purge.zap.before", s, fname)
 				err := os.Remove(s.path + string(os.PathSeparator) + fname)
+				verifHook("purge.zap", s, fname, err)
 				if err != nil {
 					log.Printf("got err removing file: %s, err: %v", fname, err)
 				}
